@@ -125,6 +125,10 @@ func kinds() []keyKind {
 		{name: "time", kk: "KKTime", typ: reflect.TypeOf(time.Time{}), gen: func(r *vh.Rng) reflect.Value {
 			return reflect.ValueOf(time.Unix(int64(r.Intn(4000000000))-1000000000, int64(r.PickInt(0, 0, 1, 999999999, r.Intn(1000000000)))).UTC())
 		}},
+		{name: "time-subsec", kk: "KKTime", typ: reflect.TypeOf(time.Time{}), gen: func(r *vh.Rng) reflect.Value {
+			// several keys inside the same second (one Location): only the nanoseconds order them
+			return reflect.ValueOf(time.Unix(int64(1700000000+r.Intn(2)), int64(r.PickInt(0, 1, 2, 500, 999, 1000, 999999, 1000000, 123456789, 500000000, 999999998, 999999999, r.Intn(1000000000)))).UTC())
+		}},
 		{name: "time-zones", kk: "KKTime", typ: reflect.TypeOf(time.Time{}), gen: func(r *vh.Rng) reflect.Value {
 			// few instants x several locations: distinct map keys that denote the same instant
 			return reflect.ValueOf(time.Unix(int64(1700000000+r.Intn(3)), 0).In(zones[r.Intn(len(zones))]))
@@ -310,6 +314,11 @@ func mapsStream(r *vh.Rng, n, reps int, cv *vh.Cases, sum *vh.Summary, idBase in
 			ki := k.Interface()
 			if f, ok := ki.(float64); ok && f == 0 {
 				ki = float64(0)
+			}
+			if t, ok := ki.(time.Time); ok && format == "cbor" {
+				// cbor carries times with microsecond resolution: finer keys collide on the wire
+				t = t.Truncate(time.Microsecond)
+				k, ki = reflect.ValueOf(t), t
 			}
 			if k.Kind() == reflect.Float32 || k.Kind() == reflect.Float64 {
 				if format == "json" && math.IsInf(k.Float(), 0) {
@@ -502,6 +511,24 @@ func (x *MF) CodecMissingField(field []byte, value interface{}) bool {
 }
 func (x *MF) CodecMissingFields() map[string]interface{} { return x.m }
 
+// MFO: every declared field is omitempty, so 0, 1 or all of them are emitted next to the missing fields
+type MFO struct {
+	Bee string `codec:"bee,omitempty"`
+	Ant string `codec:"ant,omitempty"`
+	Zed string `codec:"zed,omitempty"`
+	Mid string `codec:",omitempty"`
+	m   map[string]interface{}
+}
+
+func (x *MFO) CodecMissingField(field []byte, value interface{}) bool {
+	if x.m == nil {
+		x.m = map[string]interface{}{}
+	}
+	x.m[string(field)] = value
+	return true
+}
+func (x *MFO) CodecMissingFields() map[string]interface{} { return x.m }
+
 func structStream(r *vh.Rng, n, reps int, cv *vh.Cases, sum *vh.Summary, idBase int) int {
 	id := idBase
 	fixed := []string{"bee", "ant", "zed", "Mid"}
@@ -513,10 +540,27 @@ func structStream(r *vh.Rng, n, reps int, cv *vh.Cases, sum *vh.Summary, idBase 
 		delete(o, "StringToRaw")
 		delete(o, "StructToArray")
 		h := vh.NewHandle(format, o)
+		// which declared fields are present: all (type MF), or a subset incl. none (type MFO, omitempty)
+		omit := it%2 == 1
+		mask := 15
+		if omit {
+			mask = r.PickInt(0, 0, 0, 1, 2, 4, 8, 3, 5, 15, r.Intn(16))
+		}
 		nm := r.PickInt(0, 1, 2, 3, 5, 9, 14)
-		names := append([]string{}, fixed...)
+		if omit && mask == 0 && nm < 2 {
+			nm = 2 + r.Intn(12)
+		}
+		var names []string // names[i] carries sentinel(i)
 		seen := map[string]bool{"bee": true, "ant": true, "zed": true, "Mid": true, "": true}
-		for len(names) < 4+nm {
+		var fval [4]string
+		for i, f := range fixed {
+			if mask&(1<<uint(i)) != 0 {
+				fval[i] = sentinel(len(names))
+				names = append(names, f)
+			}
+		}
+		nfixed := len(names)
+		for len(names) < nfixed+nm {
 			s := randKeyString(r) + alphabet[r.Intn(len(alphabet))]
 			if seen[s] || strings.Contains(s, "#") {
 				continue
@@ -524,17 +568,20 @@ func structStream(r *vh.Rng, n, reps int, cv *vh.Cases, sum *vh.Summary, idBase 
 			seen[s] = true
 			names = append(names, s)
 		}
-		cj := map[string]interface{}{"format": format, "opts": o.String(), "names": names, "seed_index": it}
-		build := func() *MF {
-			x := &MF{Bee: sentinel(0), Ant: sentinel(1), Zed: sentinel(2), Mid: sentinel(3), m: map[string]interface{}{}}
+		cj := map[string]interface{}{"format": format, "opts": o.String(), "names": names, "seed_index": it, "omitempty": omit, "declared_present": nfixed, "missing": nm}
+		build := func() interface{} {
+			m := map[string]interface{}{}
 			for _, i := range randPerm(r, nm) {
-				x.m[names[4+i]] = sentinel(4 + i)
+				m[names[nfixed+i]] = sentinel(nfixed + i)
 			}
-			return x
+			if omit {
+				return &MFO{Bee: fval[0], Ant: fval[1], Zed: fval[2], Mid: fval[3], m: m}
+			}
+			return &MF{Bee: fval[0], Ant: fval[1], Zed: fval[2], Mid: fval[3], m: m}
 		}
 		var first []byte
 		ok := true
-		for q := 0; q < reps+2 && ok; q++ {
+		for q := 0; q < reps+4 && ok; q++ {
 			out, err := encBytes(h, build())
 			if err != nil {
 				ok = false
@@ -565,14 +612,28 @@ func structStream(r *vh.Rng, n, reps int, cv *vh.Cases, sum *vh.Summary, idBase 
 		id++
 		sum.ModelCases++
 		// decodes back to the same fields
-		var back MF
-		if err := codec.NewDecoderBytes(first, h).Decode(&back); err != nil {
-			cj["err"] = fmt.Sprint(err)
+		var bf [4]string
+		var bm map[string]interface{}
+		var derr error
+		if omit {
+			var back MFO
+			derr = codec.NewDecoderBytes(first, h).Decode(&back)
+			bf, bm = [4]string{back.Bee, back.Ant, back.Zed, back.Mid}, back.m
+		} else {
+			var back MF
+			derr = codec.NewDecoderBytes(first, h).Decode(&back)
+			bf, bm = [4]string{back.Bee, back.Ant, back.Zed, back.Mid}, back.m
+		}
+		if derr != nil {
+			cj["err"] = fmt.Sprint(derr)
 			sum.FailC("struct", "decode", "canonical struct with missing fields does not decode", cj)
-		} else if back.Bee != sentinel(0) || back.Mid != sentinel(3) || len(back.m) != nm {
+		} else if bf != fval || len(bm) != nm {
 			sum.FailC("struct", "decode-differs", "canonical struct with missing fields decodes to different fields", cj)
 		}
-		sum.Count("struct."+format, fmt.Sprintf("struct/%s/m%d", format, nm))
+		sum.Count("struct."+format, fmt.Sprintf("struct/%s/omit%v/d%d/m%d", format, omit, nfixed, nm))
+		if omit && nfixed == 0 {
+			sum.Dist["struct.no-declared-field-emitted"]++
+		}
 	}
 	return id
 }
@@ -714,7 +775,7 @@ func main() {
 	cases := flag.String("cases", "/verif/build/c08/cases", "directory for the model case files")
 	flag.Parse()
 	r := vh.NewRng(vh.SeedFromEnv())
-	sum := vh.NewSummary("maps: 26 key kinds (string, named string, intN, named int, uintN, uintptr, named uint, float32/64, named float, bool, time, time in several zones, struct, array, interface{} with distinct / with shared encodings, named fast-path map) x 5 formats x random options x sizes 1..24 x 3 insertion permutations x reps fresh Encoders x 4 goroutines x bytes/io; distinct by (key kind, format, size, ties). struct: MissingFielder struct x extra-field sets rebuilt in random order. nested: maps/lists to depth 3 rebuilt in random insertion orders")
+	sum := vh.NewSummary("maps: 27 key kinds (string, named string, intN, named int, uintN, uintptr, named uint, float32/64, named float, bool, time, time keys inside one second, time in several zones, struct, array, interface{} with distinct / with shared encodings, named fast-path map) x 5 formats x random options x sizes 1..24 x 3 insertion permutations x reps fresh Encoders x 4 goroutines x bytes/io; distinct by (key kind, format, size, ties). struct: MissingFielder struct (declared fields always present / all omitempty with 0, 1, several or all present) x extra-field sets rebuilt in random order. nested: maps/lists to depth 3 rebuilt in random insertion orders")
 	cv := vh.NewCases(*cases, "From Coq Require Import List NArith ZArith.\nFrom Verif Require Import C08.Model C08.Corr.\nImport ListNotations.", "case", "mismatches", 60)
 	id := mapsStream(r.Fork(), *nMaps, *reps, cv, sum, 0)
 	structStream(r.Fork(), *nStruct, *reps, cv, sum, id)
